@@ -44,10 +44,12 @@ PROBES = ["failed_parse_before_compare", "abandoned_generator", "result_mutated"
 def source(sfx, p, with_inner=True, variant=0):
     """variant 1 = the 'other module': same class names, different fields."""
     S = "__" + sfx
-    L = ["from utype import Schema, DataClass, Field, Options", "import utype",
+    L = ["from utype import Schema, DataClass, Field, Options, Lax", "import utype",
          "from typing import List, Dict, Tuple, Set, Optional, Any, Generator",
          "from sim.faults import Leaf, hook_point", "",
-         "def fac_list():", "    hook_point('fac_list')", "    return [7]", ""]
+         "def fac_list():", "    hook_point('fac_list')", "    return [7]", "",
+         "TEMPLATE = {'rows': [[0]], 'meta': {'tags': []}}", "",
+         "def fac_template():", "    return TEMPLATE      # a factory that hands out one shared object", ""]
     if with_inner:
         L += inner_source(sfx, variant)
     if variant == 1:
@@ -58,6 +60,8 @@ def source(sfx, p, with_inner=True, variant=0):
     L += [f"class A{S}(Schema):", f"    __options__ = {opt}", "    n: int", "    lst: List[int] = [1]",
           "    dct: Dict[str, List[int]] = {'k': [1]}", "    tup: Tuple[List[int], ...] = ([1],)", "    st: Set[int] = {1, 2}",
           "    raw: list = []", "    anyv: Any = {'a': [0]}", "    fl: List[int] = Field(default_factory=fac_list)",
+          "    lax: list = Field(max_length=Lax(2), default_factory=list)",
+          "    tpl: dict = Field(default_factory=fac_template)",
           f"    inner: Optional['Inner{S}'] = None", f"    inners: List['Inner{S}'] = Field(default_factory=list)",
           "    leaf: Optional[Leaf] = None", "    def __validate__(self):", "        hook_point('validate')", ""]
     L += [f"class D{S}(DataClass):", f"    __options__ = {opt}", "    n: int", "    lst: List[int] = [1]",
@@ -96,6 +100,11 @@ INIT_TEMPLATES = [
     {"lst": [1]},                                  # missing required
     {"n": 1, "leaf": {"$r": 0}},                   # pid filled in
     {"n": 1, "inners": [{"v": 1}], "leaf": {"$r": 0}},
+    {"n": 1, "lax": [1, [2], 3, 4]},                       # longer than the lax bound: truncated in the result only
+    {"n": 1, "lax": [[1]], "tpl": {"rows": [[5]]}},
+    {"n": 1, "raw": "[1, [2], {\"k\": [3]}]"},           # JSON text for a bare list
+    {"n": 2, "dct": "{\"a\": [1], \"b\": [2]}", "raw": "[[1]]"},
+    {"n": 2, "raw": "[1, [2], {\"k\": [3]}]", "anyv": [1]},
 ]
 D_TEMPLATES = [{"n": 1}, {"n": "2", "lst": ["3"]}, {"n": 1, "dct": {"q": [1]}}, {"n": "zz"}, {"n": 1, "raw": [[1]]},
                {"n": 1, "leaf": {"$r": 0}}, {}]
@@ -160,7 +169,7 @@ def generate(rng, tier):
         elif r < 0.78:
             ops.append({"op": "local", "data": rng.choice(LOCAL_TEMPLATES)})
         elif r < 0.93:
-            ops.append({"op": "mutate", "target": rng.randrange(0, 8), "slot": rng.randrange(0, 6), "how": rng.choice(["append", "append", "clear", "setkey"])})
+            ops.append({"op": "mutate", "target": rng.randrange(0, 8), "slot": rng.randrange(0, 30), "how": rng.choice(["append", "append", "clear", "setkey"])})
         else:
             ops.append({"op": "other_module", "data": rng.choice([{"n": "x"}, {"inner": {"other": "p"}}, {"inners": [{"other": "q"}]}])})
     plan["ops"] = ops
